@@ -14,7 +14,7 @@ import (
 func init() {
 	register(Property{
 		ID:          "C05",
-		Explanation: "Decided statically: R1 the generator value on which GenerateType / GenerateAliasType is invoked originates (through the parameters of the dispatch functions, each bound at its only call site) from (*gengoCtx).New(gen) evaluated inside the body of the loop over the generators in the per-package function; that value is not stored anywhere; New returns GeneratorNewer.New(c) or reflect.New(<type of the prototype>).Interface() and uses the registered prototype for nothing but the interface assertion and its reflect type (no aliasing, no copying of its fields); R2 in the same loop body the context's file is the result of the file constructor, which allocates a new buffer and a new import tracker (two new maps) and the namer is bound in InitWith to that file's tracker (C03.R2); R3 the context handed to generators and callbacks is the per-iteration allocation, and fields of a context are written through a receiver only by Defer (defers), the dispatchers (ignore) and Execute (sumFile, run-level by design); R4 no function of the library outside init writes a package-level variable (assignment, ++, delete, append, or a mutating method of a package-level sync.Map/Pool/Mutex-guarded value), except the enumerated registry (Register, called from init functions only); the sample generators keep their state in instance fields. R5 methods of the loaded universe write no receiver state while generators run (shared scan with C13.R7); R6 every map the per-package function stores into is allocated by that very call (all possible values are make/literal maps). R7 nothing in the library assigns a field of the run's GeneratorArgs. R8 the sets that decide which packages are local are complete before the first package is registered (C04.R2). NOT decided: user-supplied generators with their own globals or a New that returns a shared value (outside the repository).",
+		Explanation: "Decided statically: R1 the generator value on which GenerateType / GenerateAliasType is invoked originates (through the parameters of the dispatch functions, each bound at its only call site) from (*gengoCtx).New(gen) evaluated inside the body of the loop over the generators in the per-package function; that value is not stored anywhere; New returns GeneratorNewer.New(c) or reflect.New(<type of the prototype>).Interface() and uses the registered prototype for nothing but the interface assertion and its reflect type (no aliasing, no copying of its fields); R2 in the same loop body the context's file is the result of the file constructor, which allocates a new buffer and a new import tracker (two new maps) and the namer is bound in InitWith to that file's tracker (C03.R2); R3 the context handed to generators and callbacks is the per-iteration allocation, and fields of a context are written through a receiver only by Defer (defers), the dispatchers (ignore) and Execute (sumFile, run-level by design); R4 no function of the library outside init writes a package-level variable (assignment, ++, delete, append, or a mutating method of a package-level sync.Map/Pool/Mutex-guarded value), except the enumerated registry (Register, called from init functions only); the sample generators keep their state in instance fields. R5 methods of the loaded universe write no receiver state while generators run (shared scan with C13.R7); R6 every map the per-package function stores into is allocated by that very call (all possible values are make/literal maps). R7 nothing in the library assigns a field of the run's GeneratorArgs. R8 the sets that decide which packages are local are complete before the first package is registered (C04.R2). R9 = C03.R8: snippets remember nothing a previous rendering resolved. NOT decided: user-supplied generators with their own globals or a New that returns a shared value (outside the repository).",
 		Assumptions: commonAssumptions,
 		Run:         runC05,
 	})
